@@ -4,9 +4,9 @@ import re
 
 
 class Facts:
-    def __init__(self, path):
+    def __init__(self, path=None, data=None):
         import roles
-        d = roles.load_canonical(path)
+        d = data if data is not None else roles.load_canonical(path)
         self.raw = d
         self.roles = d.get("_roles", {})
         self.crate = d["crate"]
